@@ -54,6 +54,11 @@ def generate(seed, tier):
             # the mining script from start-up to shutdown: reserves a key, finds blocks, is interrupted (Ctrl-C) at a seeded call
             ops.append({'op': 'miner_session', 'rounds': rng.randint(1, 3), 'interrupt_at': rng.choice([None] + list(range(0, 14))),
                         'before': rng.random() < 0.5})
+            if rng.random() < 0.3:
+                # the disk fills up while the miner runs: saving the wallet fails from the first found block on
+                ops[-1].update({'disk_full': True, 'interrupt_at': None, 'rounds': rng.randint(2, 3)})
+        elif x < 0.985:
+            ops.append({'op': 'first_start', 'keys': rng.randint(2, 5)})
         else:
             ops.append({'op': 'balance'})
     ops.append({'op': 'save'})
@@ -126,6 +131,9 @@ def _miner_session(op, fs, sim, wallet, res, trace, save_wallet, open_or_init_wa
             if state['rounds'] > 0:
                 state['rounds'] -= 1
                 state['nonce'] += 1
+                if op.get('disk_full') and fs.enospc is None:
+                    fs.enospc = {'wallet.json.new'}
+                    res.bump('fault:disk_full_during_miner_session')
                 return (0, 'request_scrypt_input', state['nonce'])
             raise KeyboardInterrupt()             # Ctrl-C between two messages
 
@@ -212,6 +220,7 @@ def _miner_session(op, fs, sim, wallet, res, trace, save_wallet, open_or_init_wa
         if paid:
             res.bump('probe:session_found_blocks', len(paid))
     finally:
+        fs.enospc = None
         sys.argv = argv
         Wallet.get_annotated_public_key = saved_gapk
         for n_, v_ in saved.items():
@@ -417,6 +426,20 @@ def execute(script):
                             res.violate(PROP, 'C15/reload-differs-from-file', 'loaded wallet differs from the file content')
                             break
                         res.bump('reloads_after_crash')
+                        # ... and the next process goes on: its first complete save (of what it loaded, which may be shorter than
+                        # whatever the crashed save left lying around) must again produce exactly that wallet
+                        k_pt = pt[0] if isinstance(pt, tuple) else pt
+                        if k_pt >= nb - 4 or (k_pt * 7 + save_index) % 19 == 0:
+                            fs.reset_boundaries()
+                            try:
+                                save_wallet(w2)
+                            except Exception as e:
+                                res.violate(PROP, 'C15/save-fails-after-crash', 'the first save after a crash at boundary %r raised %s' % (pt, type(e).__name__))
+                                break
+                            res.bump('saves_after_crash')
+                            if check_file_is(fs.snapshot(), [got], 'first complete save after a crash at boundary %r (%s) of save #%d' % (
+                                    pt, log[k_pt][0], save_index)) is False:
+                                break
                 if res.violations:
                     break
                 res.distinct.add('save:%d:%d:%d' % (nb, cfg.get('raw_write_size', 0), len(new_t[2])))
@@ -556,6 +579,67 @@ def execute(script):
                 last_handout = None
                 res.distinct.add('receive_script:%d' % nb)
                 trace.add('receive_script', nb)
+            elif kind == 'first_start':
+                # the very first start of a script in an empty directory creates the wallet: a crash at any boundary leaves either
+                # no wallet.json or the complete one, and the next start goes on from there
+                snap_main = fs.snapshot()
+                real_wallet_cls = utils_mod.Wallet
+                nkeys_ = op.get('keys', 3)
+
+                class SmallWallet(real_wallet_cls):
+                    def generate_keys(self, n):          # (10,000 keys in the script; the count is not what is examined here)
+                        return real_wallet_cls.generate_keys(self, min(n, nkeys_))
+                utils_mod.Wallet = SmallWallet
+                try:
+                    fs.restore({})
+                    fs.crash_at = None
+                    fs.reset_boundaries()
+                    entropy.install(script.get('seed', 0) + 77)
+                    with env.quiet():
+                        w_first = open_or_init_wallet()
+                    nb_ = fs.boundary
+                    log_ = list(fs.log)
+                    want_t = _wallet_tuple(w_first)
+                    if check_file_is(fs.snapshot(), [want_t], 'after a completed first start') is False:
+                        break
+                    pts_ = []
+                    for k_ in range(nb_):
+                        pts_.append(k_)
+                        if log_[k_][0] == 'write' and log_[k_][2] and log_[k_][2] > 1:
+                            pts_.append((k_, 'torn', log_[k_][2] // 2))
+                    for pt in pts_:
+                        fs.restore({})
+                        fs.crash_at = pt
+                        fs.reset_boundaries()
+                        entropy.install(script.get('seed', 0) + 77)
+                        try:
+                            with env.quiet():
+                                open_or_init_wallet()
+                            raise RuntimeError('harness: crash point %r not reached' % (pt,))
+                        except Crash:
+                            pass
+                        fs.crash_at = None
+                        res.bump('fault:crash_in_first_start')
+                        got = check_file_is(fs.snapshot(), [None, want_t], 'crash at boundary %r (%s) of the first start' % (
+                            pt, log_[pt[0] if isinstance(pt, tuple) else pt][0]))
+                        if got is False:
+                            break
+                        try:
+                            entropy.install(script.get('seed', 0) + 78)
+                            with env.quiet():
+                                open_or_init_wallet()
+                        except Exception as e:
+                            res.violate(PROP, 'C15/reload-fails-after-crash', 'after a crash at boundary %r of the first start the next start raises %s' % (
+                                pt, type(e).__name__))
+                            break
+                    res.distinct.add('first_start:%d:%d' % (nb_, nkeys_))
+                finally:
+                    utils_mod.Wallet = real_wallet_cls
+                    fs.crash_at = None
+                    fs.restore(snap_main)
+                    entropy.install(script.get('seed', 0))
+                if res.violations:
+                    break
             elif kind == 'miner_session':
                 if not fs.isfile('wallet.json'):
                     continue
